@@ -1527,6 +1527,44 @@ fn result_s(rec: &FnRec, fin: Option<&compiler::typer::results::TypeckResults>) 
     tagged("result", items)
 }
 
+/// a program that is not generated here (corpus, catalogue): observed, its functions written as INF / SKIP rows
+fn extra_program(prefix: &str, k: usize, path: &std::path::Path, src: &str, label: &str, key: &str, out: &mut String, cov: &mut Cov) {
+    let col: Rc<RefCell<Vec<FnRec>>> = Rc::new(RefCell::new(Vec::new()));
+    let col2 = col.clone();
+    compiler::typer::verif_set_fn_observer(Some(Box::new(move |genv: &PackageTypeEnv, typer: &mut Typer, diags: &Diagnostics, f: &hir::Fn, phase: u8| {
+        observe(&col2, genv, typer, diags, f, phase)
+    })));
+    let r = catch_unwind(AssertUnwindSafe(|| compiler::pipeline::pipeline::typecheck_with_packages_and_results(path, src)));
+    compiler::typer::verif_set_fn_observer(None);
+    let (fin, verdict) = match r {
+        Ok(Ok((_table, results, _genv, diags))) => {
+            let rejected = diags.iter().any(|d| d.severity() == diagnostics::Severity::Error);
+            (Some(results), if rejected { "typer" } else { "accepted" })
+        }
+        Ok(Err(_)) => (None, "error"),
+        Err(_) => (None, "panic"),
+    };
+    out.push_str(&format!("{}{}\tPROG\t{}\t{}\t{}\t\n", prefix, k, esc_line(label), verdict, key));
+    cov.inc(&format!("{}_programs", key));
+    let recs = col.borrow();
+    for rec in recs.iter() {
+        let id = format!("{}{}.{}", prefix, k, rec.name);
+        cov.inc(&format!("{}_functions", key));
+        if let Some(kind) = &rec.skip {
+            out.push_str(&format!("{}\tSKIP\t{}\n", id, kind));
+            cov.inc(&format!("{}_functions_outside", key));
+            cov.inc(&format!("{}_outside_{}", key, kind.replace('-', "_")));
+            continue;
+        }
+        let Some(input) = &rec.input else { continue };
+        if rec.phase != 2 {
+            continue;
+        }
+        out.push_str(&format!("{}\tINF\t{}\t{}\n", id, input.to_text(), result_s(rec, fin.as_ref()).to_text()));
+        cov.inc(&format!("{}_functions_inside", key));
+    }
+}
+
 pub fn main(args: &util::Args) {
     util::quiet_panics();
     let total = args.n.unwrap_or(if args.tier == "thorough" { 5000 } else { 500 });
@@ -1679,41 +1717,17 @@ pub fn main(args: &util::Args) {
     for (k, dir) in util::corpus_pipeline_dirs().iter().enumerate() {
         let path = dir.join("main.gom");
         let Ok(src) = std::fs::read_to_string(&path) else { continue };
-        let col: Rc<RefCell<Vec<FnRec>>> = Rc::new(RefCell::new(Vec::new()));
-        let col2 = col.clone();
-        compiler::typer::verif_set_fn_observer(Some(Box::new(move |genv: &PackageTypeEnv, typer: &mut Typer, diags: &Diagnostics, f: &hir::Fn, phase: u8| {
-            observe(&col2, genv, typer, diags, f, phase)
-        })));
-        let r = catch_unwind(AssertUnwindSafe(|| compiler::pipeline::pipeline::typecheck_with_packages_and_results(&path, &src)));
-        compiler::typer::verif_set_fn_observer(None);
-        let (fin, verdict) = match r {
-            Ok(Ok((_table, results, _genv, diags))) => {
-                let rejected = diags.iter().any(|d| d.severity() == diagnostics::Severity::Error);
-                (Some(results), if rejected { "typer" } else { "accepted" })
-            }
-            Ok(Err(_)) => (None, "error"),
-            Err(_) => (None, "panic"),
-        };
         let name = dir.file_name().map(|x| x.to_string_lossy().to_string()).unwrap_or_default();
-        out.push_str(&format!("K{}\tPROG\t{}\t{}\tcorpus\t\n", k, esc_line(&format!("corpus program {} ({})", name, path.display())), verdict));
-        cov.inc("corpus_programs");
-        let recs = col.borrow();
-        for rec in recs.iter() {
-            let id = format!("K{}.{}", k, rec.name);
-            cov.inc("corpus_functions");
-            if let Some(kind) = &rec.skip {
-                out.push_str(&format!("{}\tSKIP\t{}\n", id, kind));
-                cov.inc("corpus_functions_outside");
-                cov.inc(&format!("corpus_outside_{}", kind.replace('-', "_")));
-                continue;
-            }
-            let Some(input) = &rec.input else { continue };
-            if rec.phase != 2 {
-                continue;
-            }
-            out.push_str(&format!("{}\tINF\t{}\t{}\n", id, input.to_text(), result_s(rec, fin.as_ref()).to_text()));
-            cov.inc("corpus_functions_inside");
-        }
+        extra_program("K", k, &path, &src, &format!("corpus program {} ({})", name, path.display()), "corpus", &mut out, &mut cov);
+    }
+    // ---- the call-form catalogue of C03 (arity / argtype): the accepted twin of every call form
+    for (k, (id, src)) in crate::c03::catalogue_good_programs(&scratch.join("cat0")).iter().enumerate() {
+        let dir = scratch.join(format!("cat{:05}", k));
+        let _ = std::fs::create_dir_all(&dir);
+        let path = dir.join("main.gom");
+        let _ = std::fs::write(&path, src);
+        extra_program("A", k, &path, src, &format!("catalogue program {}\n{}", id, src), "catalogue", &mut out, &mut cov);
+        let _ = std::fs::remove_dir_all(&dir);
     }
     let _ = std::fs::remove_dir_all(&scratch);
     let covrow: Vec<String> = cov.m.iter().map(|(k, v)| format!("{}={}", k, v)).collect();
